@@ -437,6 +437,8 @@ class Interp:
             if isinstance(src, (AForeign, ASparse)):
                 src = Box(snap(Rat.atom(('foreign', getattr(src, 'kind', 'sparse')))))     # np.asarray(x): a 0-d array
             b = Box(snap(src))
+            if isinstance(src, Box):
+                b.log, b.base_zero = list(src.log), src.base_zero          # a flat vector keeps its scattered entries there
             b.attrs['_modified'] = False
             b.attrs['tracked'] = True
             b.attrs['shares'] = src if isinstance(src, (Box, View)) else None
